@@ -48,5 +48,16 @@ PROPS = {
         "trusted_base": COMMON_TRUST + ["CBMC's pointer model: the byte buffer object is at least 8-aligned, so slice offsets 0..8 enumerate all alignments (checked by the aligned/misaligned harness pair)"],
         "assumptions": ["word-vector length <= 4 in the harness arrays (alignment and length arithmetic: all cases)"],
     },
+    "C20": {
+        "level": "proof",
+        "explanation": "Per 64-byte chunk, Kani/CBMC executes the real process_chunk_64 of the AVX2, SSE2 and BMI2 engines (real "
+                       "core::arch intrinsics; PDEP through its SDM model) for ALL 2^512 chunks, all pairwise-distinct (delimiter, quote, "
+                       "newline) triples and both carries and proves the returned (markers, newlines, carry) equal 64 steps of the scalar "
+                       "state machine of dsv::parser::build_index; the shared quote-mask primitives are proved against the toggle "
+                       "definition for all 2^64 bitmaps. The outer chunk/tail loops, BitWriter and the dispatcher are covered by bounded "
+                       "whole-engine comparisons at fixed lengths (labelled bounded, not counted as proved).",
+        "trusted_base": COMMON_TRUST + [MODELS + "_pdep_u64"],
+        "assumptions": ["NEON/SVE2 engines unverified", "configurations with equal special bytes are outside the property"],
+    },
 }
 FIX_COMMITS = ["2cec8d3"]
